@@ -47,8 +47,8 @@ def canonConns (cs : List Conn) : List Conn :=
 theorem stepRT_plain {d : T2Data} {kw : Str} {d0 d1 : T2Data} (body : List Str)
     (hw : writeSection mainTabs d kw = .ok (nl kw :: body))
     (hr : ∀ line tail, readSection .default none d0 kw line (body ++ tail) = .ok (d1, none, tail))
-    (hx : d1.extraPrecision = []) : StepRT d kw d0 d1 :=
-  ⟨⟨body, hw, fun line _ tail _ => ⟨none, tail, hr line tail, Or.inl ⟨rfl, rfl⟩⟩⟩, hx⟩
+    (hx : d1.extraPrecision = []) (hk : kw ∈ allSections := by decide +kernel) : StepRT d kw d0 d1 :=
+  ⟨⟨nl kw, body, hw, hdrOf_nl (mem_stops_of_section hk), fun line _ tail _ => ⟨none, tail, hr line tail, Or.inl ⟨rfl, rfl⟩⟩⟩, hx⟩
 
 theorem stepRT_ELEME (d d0 : T2Data) (hxp : XpFree d0) (hb : ∀ b ∈ d.blocks, GoodBlock d0.rocks b)
     (hw : ∀ b ∈ d.blocks, ∃ l, writeBlock mainTabs b = .ok l) :
@@ -154,7 +154,7 @@ theorem stepRT_PARAM (d d0 : T2Data) (hxp : XpFree d0) (hg : GoodParam (pr1 d) p
   have key := fun tail nxt rest hend =>
     section_roundtrip_PARAM d d0 h.1 h.2.2.1 h.2.2.2.2.1 ts.1 di.1 h.2.1 h.2.2.2.1 h.2.2.2.2.2 ts.2 di.2 hg hw hcont tail nxt rest hend
   obtain ⟨body, rfl, _⟩ := key [] none [] KwEnd.eof
-  refine ⟨⟨body, hw, ?_⟩, hxp⟩
+  refine ⟨⟨nl c!"PARAM", body, hw, hdrOf_nl (by decide +kernel), ?_⟩, hxp⟩
   intro line _ tail htail
   obtain ⟨l, r, rfl, hend⟩ := kwEnd_of_kwStart htail
   obtain ⟨body', hb', hrd⟩ := key _ _ _ hend
